@@ -187,7 +187,7 @@ func c06Is(p *Prog, rp *Report, archT *types.Named, thorough bool) {
 	}
 	m := NewMachine(p, nil)
 	eval := func(a, b triple) (bool, string) {
-		st := &State{Heap: map[int]*HObj{}, Notes: map[string]bool{}}
+		st := freshState(m, "dependency", "version")
 		ia := st.alloc(archT, mkStruct(archT, map[string]Val{"ABI": a[0], "OS": a[1], "CPU": a[2]}))
 		ib := st.alloc(archT, mkStruct(archT, map[string]Val{"ABI": b[0], "OS": b[1], "CPU": b[2]}))
 		st.push(is, []Val{Ptr{Obj: ia}, Ptr{Obj: ib}}, nil)
@@ -248,7 +248,7 @@ func c06Is(p *Prog, rp *Report, archT *types.Named, thorough bool) {
 	wfirst := ""
 	all := append(append([]triple{}, pattern...), triple{"all", "any", "any"}, triple{"any", "all", "all"})
 	for _, t := range all {
-		st := &State{Heap: map[int]*HObj{}, Notes: map[string]bool{}}
+		st := freshState(m, "dependency", "version")
 		ia := st.alloc(archT, mkStruct(archT, map[string]Val{"ABI": t[0], "OS": t[1], "CPU": t[2]}))
 		st.push(iw, []Val{Ptr{Obj: ia}}, nil)
 		out := m.Run(st)
@@ -354,7 +354,7 @@ func c06Set(p *Prog, rp *Report, archT *types.Named) {
 		for mask := 0; mask < 1<<n; mask++ {
 			for _, not := range []bool{false, true} {
 				m := NewMachine(p, nil)
-				st := &State{Heap: map[int]*HObj{}, Notes: map[string]bool{}}
+				st := freshState(m, "dependency", "version")
 				arr := &ArrayV{}
 				for i := 0; i < n; i++ {
 					arr.E = append(arr.E, mkStruct(archT, map[string]Val{"ABI": fmt.Sprintf("e%d", i), "OS": "o", "CPU": "c"}))
@@ -469,7 +469,7 @@ func c06Select(p *Prog, rp *Report, archT *types.Named) {
 		undec := ""
 		run := func(rels [][]alt) {
 			m := NewMachine(p, nil)
-			st := &State{Heap: map[int]*HObj{}, Notes: map[string]bool{}}
+			st := freshState(m, "dependency", "version")
 			admits := map[int]bool{}
 			relArr := &ArrayV{}
 			for ri, alts := range rels {
@@ -503,11 +503,19 @@ func c06Select(p *Prog, rp *Report, archT *types.Named) {
 			if method == "GetPossibilities" {
 				args = append(args, mkStruct(archT, map[string]Val{"ABI": "a", "OS": "o", "CPU": "thearch"}))
 			}
+			before := deepRender(st, Ptr{Obj: did}, 0)
 			st.push(fn, args, nil)
 			out := m.Run(st)
 			rows++
 			if len(out) != 1 || out[0].Status != stRet || badArg != "" {
 				undec = fmt.Sprintf("%v: %s %s", rels, retDesc(out), badArg)
+				return
+			}
+			if after := deepRender(out[0], Ptr{Obj: did}, 0); after != before {
+				bad++
+				if first == "" {
+					first = fmt.Sprintf("relations %v: the query modifies the dependency it is asked about (a later query gives a different answer): before %s, after %s", rels, clip(before, 200), clip(after, 200))
+				}
 				return
 			}
 			var got []string
@@ -629,7 +637,7 @@ func c06Sat(p *Prog, rp *Report) {
 					}
 					return []Val{q}, true
 				}
-				st := &State{Heap: map[int]*HObj{}, Notes: map[string]bool{}}
+				st := freshState(m, "dependency", "version")
 				st.push(fn, []Val{mkStruct(vrT, map[string]Val{"Number": "the-number", "Operator": op}), mkStruct(verT, map[string]Val{"Version": "V"})}, nil)
 				out := m.Run(st)
 				rows++
@@ -674,4 +682,20 @@ func c06Sat(p *Prog, rp *Report) {
 	} else {
 		r.ok("dependency.VersionRelation.SatisfiedBy", pos, fmt.Sprintf("%d rows = %d operators (5 Policy operators, near misses, literals of the code) x parsable/unparsable x 5 comparison results", rows, len(opl)))
 	}
+}
+
+// freshState: a state in which the package initialisers have run (cached per machine, cloned per use).
+var freshCache = map[*Machine]*State{}
+
+func freshState(m *Machine, pkgs ...string) *State {
+	base, ok := freshCache[m]
+	if !ok {
+		base = initState(m, pkgs...)
+		freshCache[m] = base
+	}
+	st := base.Clone()
+	if st.Status != stStuck {
+		st.Status = stRun
+	}
+	return st
 }
